@@ -24,6 +24,7 @@ def main(argv):
         traceback.print_exc()
         print("no check for", prop)
         return 2
+    run = None
     try:
         if a.replay:
             return mod.replay(a.replay)
@@ -33,5 +34,12 @@ def main(argv):
         mod.check(run)
         return run.finish()
     except core.InfraError as e:
+        if run is not None and run.violations:
+            # Violations registered before a later self-check of the harness gave up (e.g. a vacuity guard
+            # tripped *because of* the defect) have each been confirmed by the check's own rules already:
+            # they are the verdict, and the guard's message becomes part of the evidence.
+            run.cov["aborted_after_violations_by"] = str(e)[:2000]
+            print("note: a harness self-check stopped the run after violations had been confirmed:", str(e)[:400])
+            return run.finish()
         print("INFRASTRUCTURE ERROR (no verdict):", e)
         return 2
